@@ -19,6 +19,8 @@ for d in sorted(glob.glob("/tmp/seed_C*/change*")):
     conf = json.load(open(cj))
     meta = json.load(open(mj))
     det = json.load(open(dj)) if os.path.exists(dj) else None
+    first = os.path.join(d, "detection_first.json")
+    det_first = json.load(open(first)) if os.path.exists(first) else None
     prop = meta.get("property") or os.path.basename(os.path.dirname(d)).replace("seed_", "")
     sid = f"{prop}-{os.path.basename(d).replace('change', '')}"
     if not conf.get("confirmed"):
@@ -50,6 +52,9 @@ for d in sorted(glob.glob("/tmp/seed_C*/change*")):
         },
         "detection": det,
     }
+    if det_first:
+        m["detection_before_strengthening"] = det_first
+        m["note"] = "the quick check first missed / could not classify this change; the machinery was strengthened (see DESIGN.md §8) and `detection` is the result afterwards"
     json.dump(m, open(os.path.join(dest, "meta.json"), "w"), indent=1)
     caught = ""
     sig = ""
